@@ -1,7 +1,7 @@
 \* exhaustive over all programs of <= 7 declarations on the small alphabet
 SPECIFICATION GenSpec
 CONSTANTS
-  MaxDecls = 5
+  MaxDecls = 6
   Sample = FALSE
   WithPlans = FALSE
   BlockBudget = 1000
